@@ -12,7 +12,8 @@ from .. import common
 from ..engine_bfs import Search, canon
 from ..engine_enum import Acc, run_shards
 from ..evidence import Report
-from .parser_common import ALPHA9, hexs, msg_sig, sigs
+from .parser_common import (ALPHA9, INVALID_ITEMS, hexs, msg_sig,
+                            reject_probe, sigs)
 
 PROP = 'C05'
 FORMS = ('list', 'bytes', 'generator', 'feed_byte', 'tuple', 'bytearray')
@@ -116,6 +117,22 @@ def check_chunkings(mido, data, acc, full_forms, rot):
 def worker(shard):
     mido = common.import_mido()
     acc = Acc()
+    if shard[0] == 'reject':
+        first = shard[1]
+        for k in range(0, 4):
+            for rest in itertools.product(ALPHA9, repeat=k):
+                data = (first,) + rest
+                n = len(data)
+                for i in range(n + 1):
+                    for j in range(i, n + 1):
+                        for bad in INVALID_ITEMS:
+                            acc.evals += 1
+                            acc.nontrivial += 1
+                            reject_probe(mido, data[:i], data[i:j], data[j:],
+                                         bad, acc.violation, 'reject')
+        acc.sample({'reject_probe': hexs(data), 'invalid_items':
+                    [repr(x) for x in INVALID_ITEMS]}, cap=1)
+        return acc
     head, n, full_n, seed = shard
     rot = seed
     if head is None:
@@ -309,6 +326,7 @@ def run():
     FULL = 4 if thorough else 3
     shards = [(None, N, FULL, seed)]
     shards += [((a, b), N, FULL, seed) for a in ALPHA9 for b in ALPHA9]
+    shards += [('reject', a) for a in ALPHA9]
     run_shards(worker, shards, rep)
     rep.coverage['traces_validated_against_impl'] += rep.coverage['evaluations']
     rep.coverage['exhaustive'] = True
@@ -318,7 +336,10 @@ def run():
         f'{FORMS}: the full product for length <= {FULL}, a rotating '
         f'assignment beyond; draining between chunks on a rotating pattern; '
         f'compared with the one-shot parse. Non-trivial = a cut falls strictly '
-        f'inside a message. (2) BFS to depth {depth} over histories of '
+        f'inside a message; every string of length <= 4 split A|B|C with an '
+        f'invalid element appended to B: feed(A), feed(B+[bad]) must be '
+        f'rejected, feed(C): result = parse(A+B+C) or parse(A+C), never an '
+        f'exception or lost state. (2) BFS to depth {depth} over histories of '
         f'feed_byte({[hex(b) for b in FEED_BYTES]}), feed(2 messages), '
         f'get_message, pending, len, next on a live iterator, list, new '
         f'iterator (Parser) and put_bytes/poll/get/iterpoll/qsize '
@@ -361,6 +382,10 @@ def check_case(case):
                 out.append(('chunking-changes-result',
                             f'{got!r} vs one-shot {ref_sigs}'))
                 break
+    elif case['kind'] == 'reject':
+        reject_probe(mido, case['A'], case['B'], case['C'],
+                     eval(case['bad']), lambda k, w, c=None: out.append((k, w)),
+                     'reject')
     else:
         srch = make_consumption_search(mido, case['queue'], 99)
         hist = tuple(tuple(tuple(x) if isinstance(x, list) else x for x in o)
